@@ -36,7 +36,7 @@ ANC_SP = [{"Particle": "Case"}, {"Particle": "Adverbial"}, {"Particle": "Conjunc
 
 def gen_base(rnd):
     """a small source dictionary: entries (reading, stem, speech) for the standard, ancillary and tankan sides"""
-    alpha = rnd.sample(list("あいうえかきくけこさしたちつてとなにのはまもやよらりるれわんっー"), rnd.randint(3, 6))
+    alpha = rnd.sample(list("あいうえかきくけこさしたちつてとなにのはまもやよらりるれわんっーぁぃゃゅょ"), rnd.randint(3, 6))
     def rd(n):
         return "".join(rnd.choice(alpha) for _ in range(rnd.randint(1, n)))
     std, anc, tankan = [], [], []
@@ -380,6 +380,15 @@ def gen_history(rnd, length=12, with_restart=True, malformed=False, guess=True):
                 end = rnd.choice(["べない", "かない", "しない", "い", "だ", ""])
                 r, w = r + end, w + end
             prev = [q for q in reqs if q["kind"] == "register"]
+            if prev and rnd.random() < 0.25:
+                r = rnd.choice(prev)["reading"]                           # another user word for a reading that already has one
+            if reqs and reqs[-1]["kind"] == "convert" and rnd.random() < 0.5 and wk != "Guess":
+                # a word for exactly what was converted last, converted again at once in the same context: no stale answer
+                r = reqs[-1]["input"]
+                reqs.append({"kind": "register", "wkind": wk, "reading": r, "word": w})
+                reqs.append({"kind": "convert", "input": r, "context": reqs[-2]["context"]})
+                nconv += 1
+                continue
             nouns = [e for e in base["std"] if e["speech"] in ({"Noun": "Common"}, {"Noun": "Proper"})]
             if prev and rnd.random() < 0.2:
                 reqs.append(dict(rnd.choice(prev)))                       # the same registration again
